@@ -219,3 +219,107 @@ def witness_unicode_digit_marker():
     import mistletoe
     out = mistletoe.markdown('٣. foo\n')
     return '<ol' in out, "markdown('\\u0663. foo') = %r" % out
+
+
+# ---------------------------------------------------------------- I2b paragraph interruption
+
+def digits_ok(k, *cs):
+    for c in cs[:k]:
+        if not (48 <= c <= 57):
+            return False
+    return True
+
+
+INTERRUPT_SKELETONS = {
+    # second line of a paragraph -> does CommonMark 0.30 let it interrupt the paragraph?
+    'ordered-dot': ('{d}. x\n', 'one'), 'ordered-paren': ('{d}) x\n', 'one'), 'ordered-indented': ('  {d}. x\n', 'one'),
+    'ordered-empty': ('{d}.\n', False), 'ordered-nospace': ('{d}.x\n', False),
+    'number-word': ('{d} x\n', False), 'decimal': ('{d}.{d} x\n', False),
+}
+
+
+@lemma('I2.interrupt', 'C14', quick=[{'sk': s, 'k': k} for s in sorted(INTERRUPT_SKELETONS) for k in (1, 2)],
+       thorough=[{'sk': s, 'k': k} for s in sorted(INTERRUPT_SKELETONS) for k in (1, 2, 3, 4)], timeout=600, per_path=90,
+       covers=['block_token.py:Paragraph.read', 'block_token.py:List.check_interrupts_paragraph', 'block_token.py:ListItem.parse_marker'],
+       note='a paragraph line followed by a line that starts with a number of k symbolic digits in list-marker-like positions: '
+            'the paragraph is interrupted iff CommonMark allows it (an ordered list may interrupt a paragraph only if it starts with exactly 1 and is not empty); otherwise both lines stay one paragraph')
+def i2_interrupt(d1: int, d2: int, d3: int, d4: int) -> bool:
+    """
+    pre: digits_ok(P('k'), d1, d2, d3, d4)
+    post: _
+    """
+    import mistletoe
+    d = S(P('k'), d1, d2, d3, d4)
+    tmpl, rule = INTERRUPT_SKELETONS[P('sk')]
+    line = tmpl.replace('{d}', d)
+    out = mistletoe.markdown('prose\n' + line)
+    may = (d == '1') if rule == 'one' else bool(rule)
+    if may:
+        return out.startswith('<p>prose</p>\n<ol')
+    return out == '<p>prose\n' + line.strip() + '</p>\n'
+
+
+# ---------------------------------------------------------------- shared with C06: flanking classes
+
+@rxlemma('I3.flanking-classes', 'C14', covers=['core_tokens.py:punctuation', 'core_tokens.py:unicode_whitespace'],
+         note='(shared with C06 E-sets) the character classes that decide whether an isolated or intraword delimiter stays literal equal the spec classes for every code point of Σmd')
+def i3_flanking_classes():
+    from vfy.lemmas.c06 import e_sets
+    return e_sets.__wrapped__() if hasattr(e_sets, '__wrapped__') else e_sets()
+
+
+def _i3fc_replay(label, cp):
+    from vfy.lemmas.c06 import esets_replay
+    return esets_replay(label, cp)
+
+
+i3_flanking_classes.__lemma__.replay = _i3fc_replay
+
+
+# ---------------------------------------------------------------- I5 '&' that does not start a character reference
+
+ENT_ALPH = 'notagl'
+
+
+@lemma('I5.ampersand', 'C14', quick=[{'k': k} for k in (1, 2, 3)], thorough=[{'k': k} for k in (1, 2, 3, 4, 5)], timeout=900, per_path=90,
+       covers=['span_tokenizer.py:make_tokens', 'span_tokenizer.py:tokenize', 'span_token.py:RawText.__init__'],
+       note="'x &NAME; y' with NAME of k letters over {n,o,t,a,g,l} (solver-enumerated: html.unescape is table driven): if NAME; is an HTML5 entity the character appears, otherwise the text passes through unchanged (escaped)")
+def i5_ampersand(c1: int, c2: int, c3: int, c4: int, c5: int) -> bool:
+    """
+    pre: all_in(ENT_ALPH, P('k'), c1, c2, c3, c4, c5)
+    pre: not excl_prefix_entity(SC(P('k'), ENT_ALPH, c1, c2, c3, c4, c5))
+    post: _
+    """
+    import html
+    import html.entities
+    import mistletoe
+    name = SC(P('k'), ENT_ALPH, c1, c2, c3, c4, c5)
+    out = mistletoe.markdown('x &' + name + '; y')
+    ent = html.entities.html5.get(name + ';')
+    if ent is not None:
+        return out == '<p>x ' + html.escape(ent, quote=False) + ' y</p>\n'
+    return out == '<p>x &amp;' + name + '; y</p>\n'
+
+
+def excl_prefix_entity(name):
+    """recorded finding C14/legacy-entity-prefix: a name that merely STARTS with a legacy HTML entity name
+    (&not, &lt, &gt, &amp ... without their semicolon) is partly decoded"""
+    import html.entities
+    if P('noexcl', False):
+        return False
+    if (name + ';') in html.entities.html5:
+        return False
+    for i in range(len(name), 1, -1):
+        if name[:i] in html.entities.html5:       # legacy names are listed without ';'
+            return True
+    return False
+
+
+def witness_legacy_entity_prefix():
+    import mistletoe
+    out = mistletoe.markdown('&notit; &ltx;')
+    return out != '<p>&amp;notit; &amp;ltx;</p>\n', "markdown('&notit; &ltx;') = %r (CommonMark: not entities, literal text)" % out
+
+
+from vfy.lemmas.common import SC   # noqa: E402
+i5_ampersand.__lemma__.canary = [{'k': 4, 'noexcl': True}]
